@@ -120,6 +120,78 @@ theorem validity_table (c : Cls) (d : Nat) (p : Params K) (h : accepts c d p = t
       at hh ha hl
     exact ⟨by push_cast; linarith [hh.1], hh.2, hl, ha.1, ha.2⟩
 
+/-- non-trivial instance of the hypothesis: the 3-D JBessel model at the edge of its bound -/
+example : accepts (α := ℚ) .JBessel 3 ⟨1, 1, 0, 1/2, 0, 0, 0⟩ = true := by
+  simp [accepts, checkDim, firstError, allBounds, baseBounds, optBounds, errCase, Iv.lowerClosed,
+    Iv.upperClosed, Params.get]
+  norm_num
+
+/-- the defaults of every class are accepted wherever `check_dim` holds (so the table is not vacuous) -/
+theorem defaults_accepted (c : Cls) (d : Nat) (hd : checkDim c d = true) (hd99 : d ≤ 99) :
+    accepts (α := K) c d (defaultParams c d) = true := by
+  have hd99K : (d : K) ≤ 99 := by exact_mod_cast hd99
+  have h01 : (dbl01 : K) < 1 / 2 := by unfold dbl01; rw [div_lt_div_iff₀ (by positivity) (by positivity)]; norm_num
+  have h01' : (dbl01 : K) < 1 / 4 := by unfold dbl01; rw [div_lt_div_iff₀ (by positivity) (by positivity)]; norm_num
+  have h02 : (dbl02 : K) ≤ 1 := by unfold dbl02; rw [div_le_one (by positivity)]; norm_num
+  have hdK : (0 : K) ≤ (d : K) := Nat.cast_nonneg d
+  unfold accepts
+  rw [hd, Bool.true_and, Option.isNone_iff_eq_none]
+  cases c <;>
+    simp [firstError, allBounds, baseBounds, optBounds, errCase, defaultParams, optDefaults, Params.get,
+      Iv.lowerClosed, Iv.upperClosed, List.findSome?]
+  all_goals
+    (split_ifs <;> first | rfl | (exfalso; linarith) | (exfalso; norm_num at *))
+
+/-! ### dimension changed after construction (finding D8) -/
+
+/-- what one would like to hold after `model.dim = d1` -/
+def setdim_validity_full : Prop :=
+  ∀ (c : Cls) (d0 d1 : Nat) (p : Params ℚ), acceptsAfterSetDim c d0 d1 p = true → litValid c d1 p
+
+/-- **The full statement is false of the current code**: `JBessel(dim=1, nu=0)` followed by
+    `model.dim = 3` is accepted (bounds are frozen at construction) although `ν = 0 < 3/2 − 1`.
+    The same witness is replayed on the implementation by the search (`stale-dim-dependent-bounds`). -/
+theorem setdim_validity_full_false : ¬ setdim_validity_full := by
+  intro h
+  have hacc : acceptsAfterSetDim (α := ℚ) .JBessel 1 3 ⟨1, 1, 0, 0, 0, 0, 0⟩ = true := by
+    simp [acceptsAfterSetDim, checkDim, firstError, allBounds, baseBounds, optBounds, errCase,
+      Iv.lowerClosed, Iv.upperClosed, Params.get]
+    norm_num
+  have := (h .JBessel 1 3 ⟨1, 1, 0, 0, 0, 0, 0⟩ hacc).2.2.2
+  simp only [litValidShape] at this
+  norm_num at this
+
+/-- what does hold: lowering the dimension (or keeping it) is safe, because every dimension-dependent
+    lower bound is monotone in the dimension. -/
+theorem setdim_validity_partial (c : Cls) (d0 d1 : Nat) (p : Params K) (hle : d1 ≤ d0)
+    (h : acceptsAfterSetDim c d0 d1 p = true) : litValid c d1 p := by
+  unfold acceptsAfterSetDim at h
+  rw [Bool.and_eq_true] at h
+  obtain ⟨hd1, hb⟩ := h
+  -- the frozen bounds make the model acceptable in dimension d0 up to check_dim; use a class for which
+  -- check_dim d0 may fail: validity in d0 is only used for the bound part
+  have hcast : (d1 : K) ≤ (d0 : K) := Nat.cast_le.2 hle
+  by_cases hd0 : checkDim c d0 = true
+  · have hv := validity_table c d0 p (by unfold accepts; rw [hd0, hb]; rfl)
+    obtain ⟨h1, h2, h3, h4⟩ := hv
+    refine ⟨h1, h2, h3, ?_⟩
+    cases c <;> simp only [litValidShape, checkDim, decide_eq_true_eq] at hd1 h4 ⊢ <;> try trivial
+    all_goals try omega
+    · have : (((d1:Nat):K) - ((1:Nat):K)) / ((2:Nat):K) ≤ (((d0:Nat):K) - ((1:Nat):K)) / ((2:Nat):K) := by
+        push_cast; linarith
+      exact this.trans h4
+    · have : ((d1:Nat):K) / ((2:Nat):K) - ((1:Nat):K) ≤ ((d0:Nat):K) / ((2:Nat):K) - ((1:Nat):K) := by
+        push_cast; linarith
+      exact this.trans h4
+    · have : (((d1:Nat):K) + ((1:Nat):K)) / ((2:Nat):K) ≤ (((d0:Nat):K) + ((1:Nat):K)) / ((2:Nat):K) := by
+        push_cast; linarith
+      exact this.trans h4
+  · -- only Cubic/Linear/Circular/Spherical can fail check_dim; they have no optional bounds
+    have hbase : accepts c d1 p = true := by
+      unfold accepts; rw [hd1, Bool.true_and]
+      cases c <;> simp_all [checkDim, allBounds, optBounds]
+    exact validity_table c d1 p hbase
+
 end table
 
 /-! ## (2) closure: from a valid isotropic correlation to every covariance matrix GSTools builds -/
@@ -294,9 +366,11 @@ theorem gaussian_psd : IsPSDRadial V fun r => Real.exp (-(r ^ 2)) := by
   have h1 : IsPSDKernel fun a b : V => Real.exp (2 * inner ℝ a b) :=
     (IsPSDKernel.inner.smul (by norm_num : (0:ℝ) ≤ 2)).exp
   have h2 := h1.conj (fun a => Real.exp (-‖a‖ ^ 2))
-  show IsPSDKernel _
+  unfold IsPSDRadial IsPSDFun
   convert h2 using 3 with a b
-  rw [← Real.exp_add, ← Real.exp_add, @norm_sub_sq_real]
+  rw [← Real.exp_add, ← Real.exp_add]
+  show Real.exp (-‖a - b‖ ^ 2) = _
+  rw [@norm_sub_sq_real]
   congr 1; ring
 
 /-- rescaled profile: `φ(c · r)` is valid wherever `φ` is (`c = rescale / len_scale`) -/
